@@ -90,69 +90,287 @@ func pebbleOpts(fs vfs.FS) *pebble.Options {
 	}
 }
 
-// block describes the deterministic content of block h of a case
+// index writes a transaction makes through its nested store (the public Indexer API)
+type cp struct {
+	chain, height uint64
+	hash          []byte
+}
+type dsig struct {
+	addr   []byte
+	height uint64
+}
+
+// tx is one transaction of a block: it runs in its own Store.NewTxn() — as fsm.ApplyTransactions does —
+// writes state AND indexes through it (checkpoints and double signers of certificate results,
+// DeleteCheckpointsForChain of a committee reset), and is flushed into the block's store or discarded
+type tx struct {
+	sets     []kv
+	dels     [][]byte
+	cps      []cp
+	dss      []dsig
+	delChain uint64 // 0 = none
+	discard  bool
+}
+
+// block describes the deterministic content of block h of a case: the block's own state writes (begin-block),
+// its transactions, and the block's own index writes (QC, block)
 type block struct {
 	h    uint64
 	sets []kv
 	dels [][]byte
+	txs  []tx
 	hash []byte
 }
+
+var dsAddrs = [][]byte{bytes.Repeat([]byte{0xD1}, 20), bytes.Repeat([]byte{0xD2}, 20), bytes.Repeat([]byte{0xD3}, 20)}
 
 func mkBlock(caseSeed int64, salt, h uint64, keys [][]byte) block {
 	r := rand.New(rand.NewSource(caseSeed*1000003 + int64(salt)))
 	b := block{h: h, hash: crypto.Hash(append([]byte("blk"), be8(uint64(caseSeed)*7919+salt)...))}
-	n := 3 + r.Intn(12)
-	seen := map[string]bool{}
-	for i := 0; i < n; i++ {
-		k := keys[r.Intn(len(keys))]
-		if seen[string(k)] {
-			continue
+	writes := func(n int) (sets []kv, dels [][]byte) {
+		seen := map[string]bool{}
+		for i := 0; i < n; i++ {
+			k := keys[r.Intn(len(keys))]
+			if seen[string(k)] {
+				continue
+			}
+			seen[string(k)] = true
+			if r.Intn(5) == 0 {
+				dels = append(dels, k)
+			} else {
+				v := make([]byte, 1+r.Intn(160))
+				r.Read(v)
+				sets = append(sets, kv{k, v})
+			}
 		}
-		seen[string(k)] = true
-		if r.Intn(5) == 0 {
-			b.dels = append(b.dels, k)
-		} else {
-			v := make([]byte, 1+r.Intn(160))
-			r.Read(v)
-			b.sets = append(b.sets, kv{k, v})
+		return
+	}
+	b.sets, b.dels = writes(1 + r.Intn(6))
+	cpChains := map[uint64]bool{}
+	for i, n := 0, r.Intn(5); i < n; i++ {
+		var t tx
+		t.sets, t.dels = writes(1 + r.Intn(5))
+		switch r.Intn(6) {
+		case 0, 1: // certificate results with a checkpoint
+			t.cps = append(t.cps, cp{chain: uint64(1 + r.Intn(2)), height: salt*8 + uint64(i), hash: crypto.Hash(be8(salt*8 + uint64(i)))})
+		case 2: // … with double-sign evidence
+			t.dss = append(t.dss, dsig{addr: dsAddrs[r.Intn(len(dsAddrs))], height: 1 + uint64(r.Intn(int(h)))})
+		case 3: // … with both
+			t.cps = append(t.cps, cp{chain: uint64(1 + r.Intn(2)), height: salt*8 + uint64(i), hash: crypto.Hash(be8(salt*8 + uint64(i)))})
+			t.dss = append(t.dss, dsig{addr: dsAddrs[r.Intn(len(dsAddrs))], height: 1 + uint64(r.Intn(int(h)))})
+		case 4: // committee reset
+			// (not for a chain an earlier transaction of this block has indexed a checkpoint for: iteration
+			// through the block store's indexer transaction does not show its pending writes, so
+			// DeleteCheckpointsForChain would miss that checkpoint — a read-semantics matter, not atomicity)
+			if c := uint64(1 + r.Intn(2)); r.Intn(3) == 0 && !cpChains[c] {
+				t.delChain = c
+			}
 		}
+		t.discard = r.Intn(5) == 0 // a failed transaction
+		if !t.discard {
+			for _, c := range t.cps {
+				cpChains[c.chain] = true
+			}
+		}
+		b.txs = append(b.txs, t)
 	}
 	return b
 }
 
-func (b block) opLine(root []byte) string {
-	var sb strings.Builder
-	sb.WriteString("blk")
-	for _, e := range b.sets {
-		sb.WriteString(" set:" + drv.Hex(e.k) + "=" + drv.Hex(e.v))
-	}
-	for _, k := range b.dels {
-		sb.WriteString(" del:" + drv.Hex(k))
-	}
-	// the model's indexer entries: block-by-height -> hash, qc-by-height -> block hash
-	sb.WriteString(" idx:" + drv.Hex(be8(b.h)) + "=" + drv.Hex(b.hash))
-	sb.WriteString(" idx:" + drv.Hex(append([]byte{'q'}, be8(b.h)...)) + "=" + drv.Hex(b.hash))
-	sb.WriteString(" root=" + drv.Hex(root))
-	return sb.String()
+// idxRef is the reference content of the checkpoint and double-signer indexes (plain maps)
+type idxRef struct {
+	cps map[[2]uint64][]byte
+	dss map[string]bool
 }
 
-// commit applies block b to the real store exactly as controller.CommitCertificate does on the store:
-// state writes, IndexQC, IndexBlock, Commit.
+func newIdxRef() *idxRef { return &idxRef{cps: map[[2]uint64][]byte{}, dss: map[string]bool{}} }
+
+func (x *idxRef) clone() *idxRef {
+	o := newIdxRef()
+	for k, v := range x.cps {
+		o.cps[k] = v
+	}
+	for k := range x.dss {
+		o.dss[k] = true
+	}
+	return o
+}
+
+func dsName(d dsig) string { return string(d.addr) + string(be8(d.height)) }
+
+func (x *idxRef) equal(y *idxRef) bool {
+	if len(x.cps) != len(y.cps) || len(x.dss) != len(y.dss) {
+		return false
+	}
+	for k, v := range x.cps {
+		if w, ok := y.cps[k]; !ok || !bytes.Equal(v, w) {
+			return false
+		}
+	}
+	for k := range x.dss {
+		if !y.dss[k] {
+			return false
+		}
+	}
+	return true
+}
+
+func (x *idxRef) String() string {
+	var parts []string
+	for k, v := range x.cps {
+		parts = append(parts, fmt.Sprintf("checkpoint(chain %d, height %d)=%x", k[0], k[1], v[:4]))
+	}
+	for k := range x.dss {
+		parts = append(parts, fmt.Sprintf("doublesigner(%x@%d)", k[:2], binary.BigEndian.Uint64([]byte(k[20:]))))
+	}
+	sort.Strings(parts)
+	return "{" + strings.Join(parts, " ") + "}"
+}
+
+func cpKey(chain, height uint64) []byte {
+	return append(append([]byte{'c'}, be8(chain)...), be8(height)...)
+}
+func dsKey(d dsig) []byte { return append(append([]byte{'d'}, d.addr...), be8(d.height)...) }
+
+// effect computes, independently of the store, what committing b on top of the index content `prev` leaves:
+// the new index content and the block's NET writes (state and index; the last operation on a key wins,
+// discarded transactions contribute nothing), which is what the model is given as the block
+func (b block) effect(prev *idxRef) (next *idxRef, line func(root []byte) string) {
+	next = prev.clone()
+	type sop struct {
+		v   []byte
+		del bool
+	}
+	state := map[string]sop{}
+	var order []string
+	put := func(k []byte, o sop) {
+		if _, ok := state[string(k)]; !ok {
+			order = append(order, string(k))
+		}
+		state[string(k)] = o
+	}
+	idx := map[string]sop{}
+	var iorder []string
+	iput := func(k []byte, o sop) {
+		if _, ok := idx[string(k)]; !ok {
+			iorder = append(iorder, string(k))
+		}
+		idx[string(k)] = o
+	}
+	for _, e := range b.sets {
+		put(e.k, sop{v: e.v})
+	}
+	for _, k := range b.dels {
+		put(k, sop{del: true})
+	}
+	for _, t := range b.txs {
+		if t.discard {
+			continue
+		}
+		for _, e := range t.sets {
+			put(e.k, sop{v: e.v})
+		}
+		for _, k := range t.dels {
+			put(k, sop{del: true})
+		}
+		if t.delChain != 0 {
+			for k := range next.cps {
+				if k[0] == t.delChain {
+					delete(next.cps, k)
+					iput(cpKey(k[0], k[1]), sop{del: true})
+				}
+			}
+		}
+		for _, c := range t.cps {
+			next.cps[[2]uint64{c.chain, c.height}] = c.hash
+			iput(cpKey(c.chain, c.height), sop{v: c.hash})
+		}
+		for _, d := range t.dss {
+			next.dss[dsName(d)] = true
+			iput(dsKey(d), sop{v: []byte{1}})
+		}
+	}
+	sort.Strings(iorder) // map iteration above: make the line deterministic
+	line = func(root []byte) string {
+		var sb strings.Builder
+		sb.WriteString("blk")
+		for _, k := range order {
+			if o := state[k]; o.del {
+				sb.WriteString(" del:" + drv.Hex([]byte(k)))
+			} else {
+				sb.WriteString(" set:" + drv.Hex([]byte(k)) + "=" + drv.Hex(o.v))
+			}
+		}
+		// the model's indexer entries: block-by-height -> hash, qc-by-height -> block hash, and the net
+		// checkpoint / double-signer writes of the flushed transactions
+		sb.WriteString(" idx:" + drv.Hex(be8(b.h)) + "=" + drv.Hex(b.hash))
+		sb.WriteString(" idx:" + drv.Hex(append([]byte{'q'}, be8(b.h)...)) + "=" + drv.Hex(b.hash))
+		for _, k := range iorder {
+			if o := idx[k]; o.del {
+				sb.WriteString(" idxdel:" + drv.Hex([]byte(k)))
+			} else {
+				sb.WriteString(" idx:" + drv.Hex([]byte(k)) + "=" + drv.Hex(o.v))
+			}
+		}
+		sb.WriteString(" root=" + drv.Hex(root))
+		return sb.String()
+	}
+	return
+}
+
+// commit applies block b to the real store the way the node does: the block's own state writes, every
+// transaction in its own nested store (state and index writes through it, then Flush or Discard) as
+// fsm.ApplyTransactions does, then IndexQC, IndexBlock, Commit as controller.CommitCertificate does.
 func commit(s *store.Store, b block) (root []byte, err error) {
 	defer func() {
 		if r := recover(); r != nil {
 			err = fmt.Errorf("panic: %v", r)
 		}
 	}()
-	for _, e := range b.sets {
-		if e := s.Set(e.k, e.v); e != nil {
-			return nil, e
+	write := func(w lib.StoreI, sets []kv, dels [][]byte) lib.ErrorI {
+		for _, e := range sets {
+			if e := w.Set(e.k, e.v); e != nil {
+				return e
+			}
 		}
+		for _, k := range dels {
+			if e := w.Delete(k); e != nil {
+				return e
+			}
+		}
+		return nil
 	}
-	for _, k := range b.dels {
-		if e := s.Delete(k); e != nil {
+	if e := write(s, b.sets, b.dels); e != nil {
+		return nil, e
+	}
+	for _, t := range b.txs {
+		n := s.NewTxn()
+		if e := write(n, t.sets, t.dels); e != nil {
 			return nil, e
 		}
+		if t.delChain != 0 {
+			if e := n.DeleteCheckpointsForChain(t.delChain); e != nil {
+				return nil, e
+			}
+		}
+		for _, c := range t.cps {
+			if e := n.IndexCheckpoint(c.chain, &lib.Checkpoint{Height: c.height, BlockHash: c.hash}); e != nil {
+				return nil, e
+			}
+		}
+		for _, d := range t.dss {
+			if e := n.IndexDoubleSigner(d.addr, d.height); e != nil {
+				return nil, e
+			}
+		}
+		if t.discard {
+			n.Discard()
+			continue
+		}
+		if e := n.Flush(); e != nil {
+			return nil, e
+		}
+		n.Discard()
 	}
 	qc := &lib.QuorumCertificate{Header: &lib.View{Height: b.h, NetworkId: 1, ChainId: 1}, BlockHash: b.hash, ResultsHash: b.hash}
 	if e := s.IndexQC(qc); e != nil {
@@ -167,6 +385,35 @@ func commit(s *store.Store, b block) (root []byte, err error) {
 		return nil, e
 	}
 	return root, nil
+}
+
+// readIdx reads the checkpoint and double-signer indexes of a store through the iterating readers
+func readIdx(s lib.RIndexerI) (x *idxRef, err error) {
+	defer func() {
+		if r := recover(); r != nil {
+			err = fmt.Errorf("panic: %v", r)
+		}
+	}()
+	x = newIdxRef()
+	for chain := uint64(1); chain <= 2; chain++ {
+		cps, e := s.GetAllCheckpoints(chain)
+		if e != nil {
+			return nil, e
+		}
+		for _, c := range cps {
+			x.cps[[2]uint64{chain, c.Height}] = c.BlockHash
+		}
+	}
+	dss, e := s.GetDoubleSigners()
+	if e != nil {
+		return nil, e
+	}
+	for _, d := range dss {
+		for _, h := range d.Heights {
+			x.dss[dsName(dsig{addr: d.Id, height: h})] = true
+		}
+	}
+	return x, nil
 }
 
 func scan(s lib.RStoreI) (out []kv, err error) {
@@ -209,8 +456,9 @@ type event struct {
 // one per effective rollback)
 type snap struct {
 	version    int
-	chain      []int  // chain[i-1] = index (into evs) of the block event that is height i in this snapshot
-	line       string // the model's op line of the event that produced this snapshot
+	chain      []int   // chain[i-1] = index (into evs) of the block event that is height i in this snapshot
+	idx        *idxRef // checkpoint / double-signer indexes as of this snapshot (reference)
+	line       string  // the model's op line of the event that produced this snapshot
 	lineRes    string
 	isRollback bool
 }
@@ -232,6 +480,32 @@ type record struct {
 	evOf   []int    // evOf[b] = index of the event that applied batch b (b>=1)
 	roots  [][]byte // roots[e] = root returned by the block event e
 	states [][]kv   // states[e] = full state scan after block event e
+	snapOf []int    // snapOf[e] = the snapshot block event e produced
+}
+
+// idxSig classifies an index content that is not the reference of snapshot b
+func (rec *record) idxSig(b int, got *idxRef) string {
+	for q := b - 1; q >= 0; q-- {
+		if got.equal(rec.snaps[q].idx) {
+			return "C09:index-lags-state"
+		}
+	}
+	return "C09:state-and-index-from-different-heights"
+}
+
+// checkIdx compares the index content of a store with the reference of snapshot b
+func (rec *record) checkIdx(s lib.RIndexerI, b int, where string, fail func(sig, desc string)) bool {
+	got, err := readIdx(s)
+	if err != nil {
+		fail("C09:index-unreadable", where+": "+err.Error())
+		return false
+	}
+	want := rec.snaps[b].idx
+	if !got.equal(want) {
+		fail(rec.idxSig(b, got), fmt.Sprintf("%s: state is that of height %d (after %d batches) but the checkpoint/double-signer indexes are %s; the transactions committed up to that height indexed %s", where, rec.snaps[b].version, b, got, want))
+		return false
+	}
+	return true
 }
 
 func (rec *record) stateAt(b, height int) []kv {
@@ -389,7 +663,8 @@ func runCase(o *drv.Out, ci int, nBlocks int, maxClones int) {
 		o.Fail("C09:open-failed", err.Error(), replay)
 		return
 	}
-	rec := &record{evs: evs, snaps: []snap{{}}, evOf: []int{-1}, roots: make([][]byte, len(evs)), states: make([][]kv, len(evs))}
+	rec := &record{evs: evs, snaps: []snap{{idx: newIdxRef()}}, evOf: []int{-1}, roots: make([][]byte, len(evs)), states: make([][]kv, len(evs)), snapOf: make([]int, len(evs))}
+	failCase := func(sig, desc string) { o.Fail(sig, desc, replay) }
 	mu.Lock()
 	armed = true
 	mu.Unlock()
@@ -417,9 +692,15 @@ func runCase(o *drv.Out, ci int, nBlocks int, maxClones int) {
 				return
 			}
 			rec.states[ei] = st
-			rec.snaps = append(rec.snaps, snap{version: cur.version + 1, chain: append(append([]int{}, cur.chain...), ei),
-				line: ev.blk.opLine(root), lineRes: fmt.Sprintf("ok %d", cur.version+1)})
+			nextIdx, line := ev.blk.effect(cur.idx)
+			rec.snaps = append(rec.snaps, snap{version: cur.version + 1, chain: append(append([]int{}, cur.chain...), ei), idx: nextIdx,
+				line: line(root), lineRes: fmt.Sprintf("ok %d", cur.version+1)})
 			rec.evOf = append(rec.evOf, ei)
+			rec.snapOf[ei] = len(rec.snaps) - 1
+			// all-or-nothing across state and indexes, already in the running process
+			if !rec.checkIdx(n.s, len(rec.snaps)-1, fmt.Sprintf("after Commit of block %d", cur.version+1), failCase) {
+				return
+			}
 			mu.Lock()
 			done = len(rec.snaps) - 1
 			mu.Unlock()
@@ -445,7 +726,7 @@ func runCase(o *drv.Out, ci int, nBlocks int, maxClones int) {
 				o.Fail("C09:rollback-state-differs-from-target-height", fmt.Sprintf("event %d: after Rollback(%d) the latest state is %s, block %d had left %s", ei, t, showScan(st), t, showScan(rec.states[cur.chain[t-1]])), replay)
 				return
 			}
-			rec.snaps = append(rec.snaps, snap{version: t, chain: append([]int{}, cur.chain[:t]...), isRollback: true,
+			rec.snaps = append(rec.snaps, snap{version: t, chain: append([]int{}, cur.chain[:t]...), isRollback: true, idx: rec.snaps[rec.snapOf[cur.chain[t-1]]].idx,
 				line: fmt.Sprintf("rollback %d", t), lineRes: fmt.Sprintf("ok %d %d", t, len(rec.snaps))})
 			rec.evOf = append(rec.evOf, ei)
 			mu.Lock()
@@ -453,6 +734,9 @@ func runCase(o *drv.Out, ci int, nBlocks int, maxClones int) {
 			floor = done // applied with pebble.Sync: this batch and everything before it is durable
 			mu.Unlock()
 			o.Count("history:rollback")
+			if !rec.checkIdx(n.s, len(rec.snaps)-1, fmt.Sprintf("after Rollback(%d)", t), failCase) {
+				return
+			}
 		case "reopen":
 			// graceful stop and start on the same file system. No crash clones are taken while the database
 			// is being closed and opened: a crash inside pebble's own shutdown/start-up sequence (manifest
@@ -530,7 +814,11 @@ func (rec *record) stateSig(def string, got, want []kv) string {
 			if ev.kind != "blk" {
 				continue
 			}
-			for _, d := range ev.blk.dels {
+			dels := append([][]byte{}, ev.blk.dels...)
+			for _, t := range ev.blk.txs {
+				dels = append(dels, t.dels...)
+			}
+			for _, d := range dels {
 				if bytes.Equal(d, g.k) {
 					return "C09:deleted-key-back-in-latest-state"
 				}
@@ -545,7 +833,25 @@ func describe(evs []event) []string {
 	for _, e := range evs {
 		switch e.kind {
 		case "blk":
-			out = append(out, fmt.Sprintf("commit block %d (%d sets, %d deletes)", e.blk.h, len(e.blk.sets), len(e.blk.dels)))
+			d := fmt.Sprintf("commit block %d (%d sets, %d deletes", e.blk.h, len(e.blk.sets), len(e.blk.dels))
+			for _, t := range e.blk.txs {
+				d += fmt.Sprintf("; tx in NewTxn(): %d sets %d deletes", len(t.sets), len(t.dels))
+				for _, c := range t.cps {
+					d += fmt.Sprintf(" IndexCheckpoint(%d,%d)", c.chain, c.height)
+				}
+				for _, x := range t.dss {
+					d += fmt.Sprintf(" IndexDoubleSigner(%x..,%d)", x.addr[:2], x.height)
+				}
+				if t.delChain != 0 {
+					d += fmt.Sprintf(" DeleteCheckpointsForChain(%d)", t.delChain)
+				}
+				if t.discard {
+					d += " Discard()"
+				} else {
+					d += " Flush()"
+				}
+			}
+			out = append(out, d+")")
 		case "rollback":
 			out = append(out, fmt.Sprintf("Rollback(%d)", e.target))
 		default:
@@ -697,6 +1003,67 @@ func checkClone(o *drv.Out, name string, c clone, rec *record, cfg lib.Config) {
 			fail("C09:index-differs-from-committed-height", fmt.Sprintf("reopened at %d: block %d hash %x qc %x, expected %x", h, i, hash, qcHash, want))
 		}
 	}
+	// checkpoints and double signers indexed by the transactions (through their nested stores): point reads
+	// (also through the model) and the iterating readers, against the reference of the SAME snapshot
+	seenCp, seenDs := map[[2]uint64]bool{}, map[string]dsig{}
+	for b := 1; b <= c.started; b++ {
+		ev := rec.evs[rec.evOf[b]]
+		if ev.kind != "blk" {
+			continue
+		}
+		for _, t := range ev.blk.txs {
+			for _, x := range t.cps {
+				seenCp[[2]uint64{x.chain, x.height}] = true
+			}
+			for _, d := range t.dss {
+				seenDs[dsName(d)] = d
+			}
+		}
+	}
+	var cpl [][2]uint64
+	for k := range seenCp {
+		cpl = append(cpl, k)
+	}
+	sort.Slice(cpl, func(i, j int) bool { return cpl[i][0] < cpl[j][0] || (cpl[i][0] == cpl[j][0] && cpl[i][1] < cpl[j][1]) })
+	var dsl []string
+	for k := range seenDs {
+		dsl = append(dsl, k)
+	}
+	sort.Strings(dsl)
+	wantIdx := rec.snaps[p].idx
+	pointOK := true
+	for _, k := range cpl {
+		var got []byte
+		func() {
+			defer func() { _ = recover() }()
+			got, _ = s.GetCheckpoint(k[0], k[1])
+		}()
+		o.Op("idx "+drv.Hex(cpKey(k[0], k[1])), "v "+drv.Hex(got))
+		if !bytes.Equal(got, wantIdx.cps[k]) {
+			pointOK = false
+		}
+	}
+	for _, k := range dsl {
+		d := seenDs[k]
+		indexed := false
+		func() {
+			defer func() { _ = recover() }()
+			valid, e := s.IsValidDoubleSigner(d.addr, d.height)
+			indexed = e == nil && !valid
+		}()
+		res := "v -"
+		if indexed {
+			res = "v 01"
+		}
+		o.Op("idx "+drv.Hex(dsKey(d)), res)
+		if indexed != wantIdx.dss[k] {
+			pointOK = false
+		}
+	}
+	if rec.checkIdx(s, p, fmt.Sprintf("reopened at %d", h), fail) && !pointOK {
+		fail("C09:state-and-index-from-different-heights", fmt.Sprintf("reopened at %d: GetCheckpoint / IsValidDoubleSigner disagree with the indexes the transactions committed up to that height wrote (%s)", h, wantIdx))
+	}
+	o.Count("oracle:nested-tx-indexes-checked")
 	// continue the history from batch p
 	last := len(rec.snaps) - 1
 	for b := p + 1; b <= last; b++ {
@@ -714,7 +1081,8 @@ func checkClone(o *drv.Out, name string, c clone, rec *record, cfg lib.Config) {
 			fail("C09:cannot-continue", fmt.Sprintf("reopened at %d, block %d: %v", h, ev.blk.h, err))
 			return
 		}
-		o.Op(ev.blk.opLine(root), rec.snaps[b].lineRes)
+		_, line := ev.blk.effect(rec.snaps[b-1].idx)
+		o.Op(line(root), rec.snaps[b].lineRes)
 		if !bytes.Equal(root, rec.roots[rec.evOf[b]]) {
 			fail("C09:continued-root-differs", fmt.Sprintf("reopened at %d, block %d: root %x, uncrashed %x", h, ev.blk.h, root, rec.roots[rec.evOf[b]]))
 			return
@@ -723,6 +1091,7 @@ func checkClone(o *drv.Out, name string, c clone, rec *record, cfg lib.Config) {
 	st, err = scan(s)
 	if err == nil {
 		o.Op("state", showScan(st))
+		rec.checkIdx(s, last, "continued to the end of the history", fail)
 		if !sameScan(st, rec.stateAt(last, rec.snaps[last].version)) {
 			want := rec.stateAt(last, rec.snaps[last].version)
 			fail(rec.stateSig("C09:continued-state-differs", st, want), fmt.Sprintf("reopened at %d and continued to the end of the history: final state %s differs from the uncrashed run's %s", h, showScan(st), showScan(want)))
